@@ -10,10 +10,10 @@ import (
 
 func init() {
 	register(&propDef{
-		ID:    "C16",
-		Level: "other",
+		ID:      "C16",
+		Level:   "other",
 		Explain: "gRPC proxy wiring (no test exercises it): (G1) in the stream interceptor the wrapped handler is called only under lookup err == nil and target != nil; the nil-target edge returns codes.NotFound, the lookup-error edge codes.Internal; (K1) the context key type written by the interceptor (context.WithValue) is the one the director reads (ctx.Value), and the stored value's static type is the asserted one; (M1) the director builds the outgoing context as metadata.NewOutgoingContext(ctx, md.Copy()) with md from metadata.FromIncomingContext(ctx) of the same call, and obtains the connection from the pool for the context's target; without a target it returns an error and no connection; (W1) newGrpcProxy returns options containing the proxy codec, UnknownServiceHandler(TransparentHandler(director)), a stream interceptor bound to the interceptor's Stream method, and receive/send limits from GRPCMaxRxMsgSize/GRPCMaxTxMsgSize (not swapped); (L1) the interceptor's lookup uses the full method as path, the single dsthost metadata value as host, the configured picker/matcher, and one GetTable().Lookup; (P1) the pool map is accessed only under its lock and every key is makeGRPCTargetKey(target) or a range key; (P2) the insert re-checks the map under the write lock (no double dial leak) and closes the surplus connection; (P3) the cleanup loop is paced, releases the lock before sleeping, deletes closed connections and those whose target left the table. (P4) the pool key is the whole target URL; (G2) the interceptor returns the error of the handler unchanged. (H1) getDestinationHostFromMetadata reads the dsthost key only; Not decided: message/metadata/trailer/status transparency (delegated to mwitkow/grpc-proxy and grpc-go).",
-		Run:   runC16,
+		Run:     runC16,
 		Trusted: []string{"mwitkow/grpc-proxy TransparentHandler forwards frames, metadata, trailers and status unchanged", "grpc-go honours codec, interceptor and size options"},
 		Mutants: []mutant{
 			{Name: "authority used as destination host", File: "proxy/grpc_handler.go", Old: "\thosts := md[\"dsthost\"]\n", New: "\thosts := md[\"dsthost\"]\n\tif len(hosts) == 0 {\n\t\thosts = md[\":authority\"]\n\t}\n", Expect: "C16.H1"},
